@@ -15,3 +15,9 @@ mod versioned;
 mod write;
 
 pub use builder::ZoneBuilder;
+
+/// Access to the version store for the verification harness.
+#[cfg(domain_verif)]
+pub mod verif_hooks {
+    pub use super::versioned::{Version, Versioned};
+}
